@@ -139,6 +139,8 @@ struct Child {
     generation: usize,
     /// what the worker was doing when the watchdog fired (progress line, agdb frames of its main thread, CPU seconds burnt without progress)
     hang: Option<(String, Vec<String>, f64)>,
+    /// the parent killed this worker because its case was stuck (lines it had written before may still arrive)
+    killed_by_watchdog: bool,
     /// (the `last_activity` instant the baseline belongs to, CPU seconds of the process at that moment)
     cpu_base: (Instant, f64),
 }
@@ -221,6 +223,7 @@ fn spawn(args: &Args, shard: usize, of: usize, from: usize, tx: &mpsc::Sender<Ms
         case: None,
         last_p: String::new(),
         hang: None,
+        killed_by_watchdog: false,
         cpu_base: (Instant::now(), 0.0),
         done: false,
         last_activity: Instant::now(),
@@ -295,11 +298,14 @@ pub fn parent_main(engine: &dyn CaseEngine, args: &Args) -> Report {
     let mut deaths = 0u64;
     let max_deaths = args.u64("max-deaths", 96);
     let mut last_check = Instant::now();
+    let mut drained = false;
     while live > 0 {
-        if last_check.elapsed() >= Duration::from_secs(2) {
+        // the check looks at `last_activity`, so it must not run while lines the workers have already written are
+        // still queued (the parent may have been busy, e.g. inside gdb): only check when the queue was just drained
+        if last_check.elapsed() >= Duration::from_secs(2) && drained {
             last_check = Instant::now();
             for c in children.iter_mut() {
-                if c.done || c.case.is_none() || c.last_p == "__watchdog__" {
+                if c.done || c.case.is_none() || c.killed_by_watchdog {
                     continue;
                 }
                 // CPU seconds burnt since the last sign of progress (the baseline follows `last_activity`)
@@ -318,12 +324,27 @@ pub fn parent_main(engine: &dyn CaseEngine, args: &Args) -> Report {
                         .filter(|f| f.contains("agdb::") || f.contains("vcore::") || f.contains("dbh::"))
                         .collect();
                     c.hang = Some((c.last_p.clone(), frames, cpu_stuck));
-                    c.last_p = "__watchdog__".into();
+                    c.killed_by_watchdog = true;
                     let _ = c.proc.kill();
                 }
             }
         }
-        match rx.recv_timeout(Duration::from_secs(2)) {
+        // non-blocking first: `drained` is true exactly when nothing was waiting
+        let msg = match rx.try_recv() {
+            Ok(m) => {
+                drained = false;
+                Ok(m)
+            }
+            Err(mpsc::TryRecvError::Empty) => {
+                drained = true;
+                if last_check.elapsed() >= Duration::from_secs(2) {
+                    continue;
+                }
+                rx.recv_timeout(Duration::from_millis(500))
+            }
+            Err(mpsc::TryRecvError::Disconnected) => Err(mpsc::RecvTimeoutError::Disconnected),
+        };
+        match msg {
             Ok(Msg::Line(i, l)) => {
                 let c = &mut children[i];
                 c.last_activity = Instant::now();
@@ -358,7 +379,7 @@ pub fn parent_main(engine: &dyn CaseEngine, args: &Args) -> Report {
                 let tail: String = stderr.lines().rev().take(60).collect::<Vec<_>>().into_iter().rev().collect::<Vec<_>>().join("\n");
                 let (what, frame) = classify_death(&stderr, &status);
                 let case = children[i].case;
-                let killed_by_watchdog = children[i].last_p == "__watchdog__";
+                let killed_by_watchdog = children[i].killed_by_watchdog;
                 let detail = format!(
                     "worker died ({status}) in case {:?} at [{}]: {what} in {frame}",
                     case, children[i].last_p
